@@ -843,5 +843,45 @@ pub fn run(rng: &mut Rng, thorough: bool, corpus: &[String]) -> Run {
     source_family(&mut run);
     cli_product(&mut run, rng, thorough);
     precedence(&mut run, rng, thorough);
+    multi_target(&mut run);
     run
+}
+
+/// C03 / C16: UDP and TCP probes carry no trace identifier, so two tracers of one invocation could not tell their
+/// answers apart — the command line refuses more than one target (or `--dns-resolve-all`) for those protocols, in
+/// every mode; report modes take one target whatever the protocol.  The real `build_config` on the full product.
+fn multi_target(run: &mut Run) {
+    let modes = [Mode::Tui, Mode::Stream, Mode::Pretty, Mode::Markdown, Mode::Csv, Mode::Json, Mode::Dot, Mode::Flows, Mode::Silent];
+    for mode in modes {
+        for proto in ['i', 'u', 't'] {
+            for n_targets in [1usize, 2, 3] {
+                for resolve_all in [false, true] {
+                    let mut a = base_args();
+                    a.mode = Some(mode);
+                    a.udp = proto == 'u';
+                    a.tcp = proto == 't';
+                    // dot / flows need a multipath strategy, which needs UDP: otherwise leave the default
+                    if matches!(mode, Mode::Dot | Mode::Flows) && proto == 'u' { a.multipath_strategy = Some(MultipathStrategyConfig::Paris); }
+                    a.targets = (0..n_targets).map(|k| format!("host{k}.example")).collect();
+                    a.dns_resolve_all = resolve_all;
+                    let desc = format!("mode={mode:?} protocol={proto} targets={n_targets} dns-resolve-all={resolve_all}");
+                    let several = n_targets > 1 || resolve_all;
+                    let single_only_mode = matches!(mode, Mode::Stream | Mode::Pretty | Mode::Markdown | Mode::Csv | Mode::Json);
+                    match guarded(|| verif_build_config(a, Sections::new().into_file(true), &privilege(), PID)) {
+                        Err(p) => run.fail("c16-build-config-panics", format!("{desc} ({p})")),
+                        Ok(Ok(_)) => {
+                            if several && (proto != 'i' || single_only_mode) {
+                                run.fail("c03-several-targets-accepted", format!("{desc}: accepted, although {} cannot serve several targets", if proto != 'i' { "UDP / TCP tracing (no trace identifier in the probes)" } else { "this mode" }));
+                            }
+                            run.count("multi:accepted");
+                        }
+                        Ok(Err(_)) => {
+                            if !several && !(matches!(mode, Mode::Dot | Mode::Flows) && proto != 'u') { run.fail("c16-single-target-rejected", desc); }
+                            run.count("multi:rejected");
+                        }
+                    }
+                }
+            }
+        }
+    }
 }
